@@ -1,8 +1,10 @@
 SPECIFICATION Spec
 CONSTANTS
   Policies = {"mtsafe"}
+  ExPolicies = {}
   Threads = {t1, t2}
   MaxCreate = 4
+  MaxCreateEx = 4
   MaxOverlap = 3
   Classes = {1, 2}
   StackInits = {0, 200}
@@ -10,7 +12,9 @@ CONSTANTS
   PlaceInits = {300}
   NSlots = 6
   Grain = "atomic"
-  Fixed = FALSE
-INVARIANTS TypeOK Exclusive BlockAlive BookkeepingTruthful LargeEnough HeapFallbackFreedOnce TrailerTruthful MtSafeNeverShares ReuseBlock ExtraCtorDtorOnce
-PROPERTIES ExtraUsableAtCreation WarmNoAlloc CompleteNoAlloc
+  Fixed = TRUE
+  MaxMoves = 0
+  MaxOwner = 0
+INVARIANTS TypeOK Exclusive BlockAlive BookkeepingTruthful LargeEnough SizeRoundTrip HeapFallbackFreedOnce TrailerTruthful MtSafeNeverShares ReuseBlock ExtraCtorDtorOnce
+PROPERTIES ExtraUsableAtCreation WarmNoAlloc CompleteNoAlloc MoveNoAlloc
 CHECK_DEADLOCK FALSE
